@@ -22,19 +22,34 @@ method that returns / yields ``self.P`` or ``self.B`` on some path.
       (``finally``) and the single-connection branch closes nothing; the AgentCore entry point really selects the
       single-connection mode (floor).
 
-Not decided: equality of results between the modes beyond "the same statements run on an open connection";
-transaction boundaries after an exception (per-call mode rolls back on close, the shared connection keeps the
-transaction open); thread affinity of the shared connection.
+* R3  no per-call result is taken from *connection-lifetime* state.  A per-call connection is born with the call, so
+      its lifetime state starts from zero; the shared connection carries the history of every handler / event / tick /
+      state operation (and of the migrations).  Through a value that may be the shared connection (same receiver analysis
+      as R1, plus ``cursor.connection`` and cursors made from it) the rule looks for reads of ``total_changes`` /
+      ``in_transaction`` and for SQL ``total_changes()`` / ``changes()`` / ``last_insert_rowid()`` in the constant pieces of
+      the statement text.  Accepted, because then the value is the same in both modes: a read dominated by an ownership
+      fact (per-call branch only); ``total_changes`` used solely in a difference of two reads of the same connection;
+      ``in_transaction`` used solely as ``if …: conn.commit()/rollback()``; SQL ``changes()`` / ``last_insert_rowid()`` when a
+      write of the same call on the same connection (for the rowid: a plain ``INSERT … VALUES`` without OR IGNORE / ON
+      CONFLICT) lies on every path to the read.  Quantities of the cursor of the statement just executed (``rowcount``,
+      ``lastrowid``, fetched rows) are per-statement and never reported.  Planted fixture: fixtures/c21/lifetime_reads.py.
+
+Not decided: equality of results between the modes beyond "the same statements run on an open connection and no result
+is read from the connection's history"; writes to connection-lifetime configuration (``row_factory``, PRAGMAs);
+interleaving of another task between a write and a ``changes()`` / difference read (no ``await`` lies inside the provider
+blocks today); transaction boundaries after an exception (per-call mode rolls back on close, the shared connection keeps
+the transaction open); thread affinity of the shared connection.
 """
 
 from __future__ import annotations
 
 import ast
+import re
 from pathlib import Path
 
 from ..astx import call_name, calls, dotted, enclosing_stmt, expand, facts_at, kwarg, last
 from ..cfg import CFG
-from ..index import AnchorError, FuncNode, Module, Repo, _set_parents, walk_shallow
+from ..index import AnchorError, FuncNode, Module, Repo, _set_parents, parent, walk_shallow
 from ..selftest import Twin
 
 EXPLANATION = (
@@ -45,12 +60,22 @@ EXPLANATION = (
     "definition on the CFG) unless dominated by an ownership fact (negated hand-out guard, `x is not self.B`); the owner's lifecycle methods may "
     "close P. A planted fixture keeps the zero-expected form honest. R2: sqlite3.connect only in the provider / opener / static helpers; the "
     "per-call branch closes what it opened, the single-connection branch closes nothing; AgentCore selects single_connection=True. "
-    "NOT decided: result equality beyond running the same statements on an open connection; rollback behaviour after exceptions; thread affinity."
+    "R3: no per-call result comes from connection-lifetime state: through a value that may be the shared connection (or `cursor.connection` / a cursor "
+    "made from it) no read of total_changes / in_transaction and no SQL total_changes() / changes() / last_insert_rowid(), unless the read is on the "
+    "per-call branch only (ownership fact), is a difference of two total_changes reads, is `if conn.in_transaction: commit/rollback`, or (changes / "
+    "last_insert_rowid) is preceded on every path by a write of the same call on the same connection. A per-call connection starts these quantities "
+    "from zero, the shared one carries the whole store's history, so such a value differs between the modes; cursor.rowcount / lastrowid do not. "
+    "Planted fixture fixtures/c21/lifetime_reads.py. "
+    "NOT decided: result equality beyond running the same statements on an open connection without reading its history; writes to connection "
+    "configuration (row_factory, PRAGMA); task interleaving between a write and the read; rollback behaviour after exceptions; thread affinity."
 )
-TRUSTED = ["CPython ast", "sqlite3: a closed connection raises ProgrammingError on every later use; `with conn:` does not close"]
+TRUSTED = ["CPython ast", "sqlite3: a closed connection raises ProgrammingError on every later use; `with conn:` does not close",
+           "sqlite3: Connection.total_changes / in_transaction and SQL total_changes() / changes() / last_insert_rowid() are per-connection state "
+           "(zero / idle on a new connection); Cursor.rowcount / lastrowid belong to the statement the cursor executed"]
 LEVEL_TEXT = "static typestate/ownership rule (T11) with CFG reaching definitions and guard facts; no repo code executed"
-LEVEL_NOTE = "A pass means no code path closes the shared connection; it does not prove equal results of the two modes."
-TECHNIQUE = "data-flow binding of the shared connection, CFG reaching definitions of close() receivers, dominance facts for ownership guards, planted fixture"
+LEVEL_NOTE = ("A pass means no code path closes the shared connection and no operation reads the connection's accumulated history as its result; "
+              "it does not prove equal results of the two modes.")
+TECHNIQUE = "data-flow binding of the shared connection, CFG reaching definitions of close() receivers, dominance facts for ownership guards, connection-lifetime reads (attribute and SQL text) with delta / dominance acceptance, planted fixtures"
 
 WS_MOD = "llama_agents.server._store.sqlite.sqlite_workflow_store"
 SS_MOD = "llama_agents.server._store.sqlite.sqlite_state_store"
@@ -59,6 +84,7 @@ WS, SS = "SqliteWorkflowStore", "SqliteStateStore"
 FACTORY = "create_state_store"
 LIFECYCLE = {"close", "aclose", "__del__", "__exit__", "__aexit__", "dispose", "shutdown", "stop"}
 FIXTURE = Path(__file__).resolve().parent.parent.parent / "fixtures" / "c21" / "borrowed_close.py"
+FIXTURE_R3 = FIXTURE.parent / "lifetime_reads.py"
 
 
 def _self_attr(e: ast.AST | None) -> str | None:
@@ -351,6 +377,247 @@ def _fixture_owner() -> tuple[Owner, Module]:
     return Owner(m, cls, {"_shared_conn"}, owns=False), m
 
 
+# ----------------------------------------------------------------------------------------------- R3 matcher
+
+# sqlite3 API knowledge (TRUSTED): state that belongs to the lifetime of a connection, not to one statement.
+#   cumulative : counts every write since the connection was opened -> only a difference of two reads is per-call
+#   state      : left behind by whatever ran before on the connection -> only transaction housekeeping may look at it
+LIFETIME_ATTRS = {"total_changes": "cumulative", "in_transaction": "state"}
+#   SQL functions with the same scope; `changes()` / `last_insert_rowid()` describe the connection's most recent
+#   write, which is this call's own statement only when such a statement precedes the read on every path
+SQL_LIFETIME = re.compile(r"(?i)(?<![\w.])(total_changes|changes|last_insert_rowid)\s*\(")
+_SQL_LITERAL = re.compile(r"'(?:[^']|'')*'")
+_EXEC = {"execute", "executemany", "executescript"}
+_CURSOR_MAKERS = _EXEC | {"cursor"}
+
+
+def _fixture_class(path: Path, cls_name: str, protected: set[str]) -> Owner:
+    if not path.is_file():
+        raise AnchorError(f"C21: planted fixture {path} is missing; the zero-expected rule would be unverifiable")
+    src = path.read_text(encoding="utf-8")
+    tree = ast.parse(src, filename=str(path))
+    _set_parents(tree)
+    m = Module(f"fixtures.c21.{path.stem}", path, f"fixtures/c21/{path.name}", src, tree)
+    cls = next((n for n in tree.body if isinstance(n, ast.ClassDef) and n.name == cls_name), None)
+    if cls is None:
+        raise AnchorError(f"C21: fixture class {cls_name} not found in {path.name}")
+    return Owner(m, cls, protected, owns=False)
+
+
+def _conn_source(own: Owner, fn: ast.AST, e: ast.AST, cfg: CFG, st: ast.AST, taint: dict[str, str], depth: int = 0) -> str | None:
+    """Like _protected_source, and also sees through a cursor: ``cur.connection`` / a cursor made from the connection."""
+    r = _protected_source(own, fn, e, cfg, st, taint=taint)
+    if r or depth > 2:
+        return r
+    if isinstance(e, ast.Attribute) and e.attr == "connection":
+        r = _cursor_source(own, fn, e.value, cfg, st, taint, depth + 1)
+        return f"connection of a cursor of {r}" if r else None
+    return None
+
+
+def _cursor_source(own: Owner, fn: ast.AST, e: ast.AST, cfg: CFG, st: ast.AST, taint: dict[str, str], depth: int = 0) -> str | None:
+    """Why ``e`` may be a cursor of the shared connection."""
+    if depth > 3:
+        return None
+    if isinstance(e, ast.Call) and isinstance(e.func, ast.Attribute) and e.func.attr in _CURSOR_MAKERS:
+        return _conn_source(own, fn, e.func.value, cfg, st, taint, depth) or _cursor_source(own, fn, e.func.value, cfg, st, taint, depth + 1)
+    if isinstance(e, ast.Name):
+        for bst, v in _binding_sites(fn, e.id):
+            r = _cursor_source(own, fn, v, cfg, bst, taint, depth + 1)
+            if r:
+                return r
+    return None
+
+
+def _conn_key(fn: ast.AST, e: ast.AST, depth: int = 0) -> str | None:
+    """A name for *which* connection object an expression denotes inside one function (None = cannot tell):
+    a cursor is keyed by the connection it was made from."""
+    if depth > 3:
+        return None
+    if isinstance(e, ast.Attribute) and e.attr == "connection":
+        return _conn_key(fn, e.value, depth + 1)
+    if isinstance(e, ast.Call) and isinstance(e.func, ast.Attribute) and e.func.attr in _CURSOR_MAKERS:
+        return _conn_key(fn, e.func.value, depth + 1)
+    if _self_attr(e):
+        return f"self.{e.attr}"
+    if isinstance(e, ast.Name):
+        made = [v for _s, v in _binding_sites(fn, e.id) if isinstance(v, ast.Call) and isinstance(v.func, ast.Attribute) and v.func.attr in _CURSOR_MAKERS]
+        if made:
+            keys = {_conn_key(fn, v, depth + 1) for v in made}
+            return keys.pop() if len(keys) == 1 else None
+        alias = [v for _s, v in _binding_sites(fn, e.id) if isinstance(v, ast.Name)]
+        if len(alias) == 1 and len(_binding_sites(fn, e.id)) == 1:
+            return _conn_key(fn, alias[0], depth + 1)
+        return e.id
+    return None
+
+
+def _sql_fragments(own: Owner, fn: ast.AST, e: ast.AST | None, depth: int = 0) -> list[str]:
+    """The constant pieces of the SQL text an expression may evaluate to (flow-insensitive; pieces, not the whole text)."""
+    if e is None or depth > 4:
+        return []
+    if isinstance(e, ast.Constant):
+        return [e.value] if isinstance(e.value, str) else []
+    if isinstance(e, ast.JoinedStr):
+        return [x for v in e.values for x in _sql_fragments(own, fn, v, depth + 1)]
+    if isinstance(e, ast.FormattedValue):
+        return _sql_fragments(own, fn, e.value, depth + 1)
+    if isinstance(e, ast.BinOp):
+        return _sql_fragments(own, fn, e.left, depth + 1) + _sql_fragments(own, fn, e.right, depth + 1)
+    if isinstance(e, ast.IfExp):
+        return _sql_fragments(own, fn, e.body, depth + 1) + _sql_fragments(own, fn, e.orelse, depth + 1)
+    if isinstance(e, (ast.Tuple, ast.List)):
+        return [x for v in e.elts for x in _sql_fragments(own, fn, v, depth + 1)]
+    if isinstance(e, ast.Call) and isinstance(e.func, ast.Attribute):  # " ".join([...]) / "...".format(...)
+        return _sql_fragments(own, fn, e.func.value, depth + 1) + [x for a in e.args for x in _sql_fragments(own, fn, a, depth + 1)]
+    if isinstance(e, ast.Name):
+        vals: list[ast.AST] = []
+        for n in walk_shallow(fn):
+            if isinstance(n, ast.AugAssign) and isinstance(n.target, ast.Name) and n.target.id == e.id:
+                vals.append(n.value)
+        vals += _all_defs(fn, e.id)
+        if not vals:
+            for n in own.m.tree.body:
+                if isinstance(n, ast.Assign) and any(isinstance(t, ast.Name) and t.id == e.id for t in n.targets):
+                    vals.append(n.value)
+                elif isinstance(n, ast.AnnAssign) and isinstance(n.target, ast.Name) and n.target.id == e.id and n.value is not None:
+                    vals.append(n.value)
+        return [x for v in vals for x in _sql_fragments(own, fn, v, depth + 1)]
+    return []
+
+
+def _sql_functions(frags: list[str]) -> set[str]:
+    return {m.group(1).lower() for f in frags for m in SQL_LIFETIME.finditer(_SQL_LITERAL.sub("''", f))}
+
+
+def _own_write_kind(frags: list[str]) -> set[str]:
+    """What a statement of this call establishes for later `changes()` / `last_insert_rowid()` reads."""
+    txt = _SQL_LITERAL.sub("''", " ".join(frags)).strip().upper()
+    out: set[str] = set()
+    if re.match(r"(INSERT|REPLACE|UPDATE|DELETE)\b", txt):
+        out.add("changes")
+        # a plain INSERT ... VALUES always inserts a row; OR IGNORE / ON CONFLICT / INSERT ... SELECT may insert none
+        if re.match(r"(INSERT|REPLACE)\b", txt) and re.search(r"\bVALUES\b", txt) and not re.search(r"\bIGNORE\b|\bON\s+CONFLICT\b", txt):
+            out.add("last_insert_rowid")
+    return out
+
+
+def _other_operand_is_read(fn: ast.AST, binop: ast.AST, me: ast.AST, attr: str, key: str) -> bool:
+    if not (isinstance(binop, ast.BinOp) and isinstance(binop.op, ast.Sub)):
+        return False
+    other = binop.right if binop.left is me else binop.left
+
+    def direct(x: ast.AST) -> bool:
+        return isinstance(x, ast.Attribute) and x.attr == attr and _conn_key(fn, x.value) == key
+
+    if direct(other):
+        return True
+    if isinstance(other, ast.Name):
+        defs = _all_defs(fn, other.id)
+        return bool(defs) and all(direct(d) for d in defs)
+    return False
+
+
+def _is_delta(fn: ast.AST, read: ast.Attribute) -> bool:
+    """The read takes part only in a difference of two reads of the same counter of the same connection."""
+    key = _conn_key(fn, read.value)
+    if key is None:
+        return False
+    p = parent(read)
+    if _other_operand_is_read(fn, p, read, read.attr, key):
+        return True
+    tgt = None
+    if isinstance(p, ast.Assign) and p.value is read and len(p.targets) == 1 and isinstance(p.targets[0], ast.Name):
+        tgt = p.targets[0].id
+    elif isinstance(p, ast.AnnAssign) and p.value is read and isinstance(p.target, ast.Name):
+        tgt = p.target.id
+    if tgt is None:
+        return False
+    if any(not (isinstance(d, ast.Attribute) and d.attr == read.attr and _conn_key(fn, d.value) == key) for d in _all_defs(fn, tgt)):
+        return False
+    loads = [n for n in walk_shallow(fn, into_nested=True) if isinstance(n, ast.Name) and n.id == tgt and isinstance(n.ctx, ast.Load)]
+    return bool(loads) and all(_other_operand_is_read(fn, parent(n), n, read.attr, key) for n in loads)
+
+
+def _is_housekeeping(fn: ast.AST, read: ast.Attribute) -> bool:
+    """``if conn.in_transaction: conn.commit() / conn.rollback()`` — the state only decides whether to end a transaction."""
+    key = _conn_key(fn, read.value)
+    node: ast.AST = read
+    p = parent(node)
+    while isinstance(p, ast.UnaryOp) and isinstance(p.op, ast.Not):
+        node, p = p, parent(p)
+    if not (isinstance(p, ast.If) and p.test is node and key is not None):
+        return False
+
+    def ends_tx(s: ast.stmt) -> bool:
+        if isinstance(s, ast.Pass):
+            return True
+        return (isinstance(s, ast.Expr) and isinstance(s.value, ast.Call) and isinstance(s.value.func, ast.Attribute)
+                and s.value.func.attr in ("commit", "rollback") and not s.value.args and _conn_key(fn, s.value.func.value) == key)
+
+    return all(ends_tx(s) for s in p.body + p.orelse)
+
+
+def lifetime_reads(own: Owner) -> tuple[list[dict], int]:
+    """Every read of connection-lifetime state through a value that may be the shared connection, with its verdict;
+    plus the number of attribute uses of such values that were examined (floor)."""
+    out: list[dict] = []
+    examined = 0
+    taints = _helper_taint(own)
+    for name, fn in own.methods.items():
+        taint = taints.get(name, {})
+        cfg = CFG(fn)
+
+        def facts_of(st: ast.AST) -> set:
+            nodes = cfg.nodes_of(st)
+            return set.intersection(*[facts_at(cfg, n) for n in nodes]) if nodes else set()
+
+        execs: list[tuple[ast.Call, str | None, list[str]]] = []  # statements run on the possibly-shared connection
+        for n in walk_shallow(fn):
+            if not (isinstance(n, ast.Attribute) and isinstance(n.ctx, ast.Load)):
+                continue
+            st = enclosing_stmt(n)
+            if st is None:
+                continue
+            src = _conn_source(own, fn, n.value, cfg, st, taint)
+            via_cursor = None if src else _cursor_source(own, fn, n.value, cfg, st, taint)
+            if src is None and via_cursor is None:
+                continue
+            examined += 1
+            call = parent(n)
+            if n.attr in _EXEC and isinstance(call, ast.Call) and call.func is n:
+                execs.append((call, src or via_cursor, _sql_fragments(own, fn, call.args[0] if call.args else kwarg(call, "sql"))))
+            if src is None or n.attr not in LIFETIME_ATTRS:
+                continue
+            kind = LIFETIME_ATTRS[n.attr]
+            guarded = _ownership_guard(own, facts_of(st), n.value)
+            why = "ownership guard" if guarded else ""
+            if not why and kind == "cumulative" and _is_delta(fn, n):
+                why = "difference of two reads"
+            if not why and kind == "state" and _is_housekeeping(fn, n):
+                why = "transaction housekeeping"
+            out.append({"fn": fn, "site": n, "what": f"{ast.unparse(n)}", "slot": n.attr, "source": src, "ok": bool(why), "why_ok": why,
+                        "detail": "it counts every row written through the connection since it was opened" if kind == "cumulative"
+                        else "it reflects what earlier operations left behind on the connection"})
+        for call, src, frags in execs:
+            st = enclosing_stmt(call)
+            key = _conn_key(fn, call.func.value)
+            for f in sorted(_sql_functions(frags)):
+                guarded = _ownership_guard(own, facts_of(st), call.func.value)
+                why = "ownership guard" if guarded else ""
+                if not why and f != "total_changes" and key is not None:
+                    writers = [n for c2, _s, fr in execs if c2 is not call and f in _own_write_kind(fr) and _conn_key(fn, c2.func.value) == key
+                               for n in cfg.nodes_of(enclosing_stmt(c2))]
+                    here = cfg.nodes_of(st)
+                    if writers and here and not cfg.must_pass([cfg.entry], here, writers):
+                        why = "a write of this call on the same connection precedes it on every path"
+                out.append({"fn": fn, "site": call, "what": f"SQL {f}() through `{ast.unparse(call.func.value)}`", "slot": f"sql:{f}", "source": src,
+                            "ok": bool(why), "why_ok": why,
+                            "detail": "it counts every row written through the connection since it was opened" if f == "total_changes"
+                            else "without a preceding write of this call it describes the last write of an earlier operation (0 on a fresh connection)"})
+    return sorted(out, key=lambda d: d["site"].lineno), examined
+
+
 # ----------------------------------------------------------------------------------------------- run
 
 
@@ -389,6 +656,37 @@ def run(chk) -> None:
     chk.floor("C21.R1", "planted guarded closes accepted in fixtures/c21/borrowed_close.py", len(good), 3)
     if {d["fn"].name for d in bad} != {"load", "save", "_drop"} or {d["fn"].name for d in good} != {"load_guarded", "load_identity", "_release"}:
         raise AnchorError(f"C21.R1: fixture verdicts changed: reported {[d['fn'].name for d in bad]}, accepted {[d['fn'].name for d in good]}")
+
+    # ---------------------------------------------------------------- R3
+    examined = 0
+    for own, cname in ((w, WS), (s, SS)):
+        reads, n = lifetime_reads(own)
+        examined += n
+        for d in reads:
+            fn = d["fn"]
+            chk.ob("C21.R3", f"{cname}.{fn.name}: {d['what']} is not a per-call result taken from connection-lifetime state"
+                   + (f" ({d['why_ok']})" if d["ok"] else ""), d["ok"], m=own.m, node=d["site"], fn=fn, instance=f"lifetime-read:{d['slot']}",
+                   reason=f"{d['what']} is read through a value that may be the shared connection ({d['source']}); {d['detail']}, so with "
+                          f"single_connection=True the operation returns / acts on the history of the whole store while a per-call connection starts "
+                          f"from zero. Take the per-call quantity from the cursor of the statement just executed (cursor.rowcount / cursor.lastrowid), "
+                          f"or from a difference of two reads",
+                   path=[d["source"]])
+        if not reads:
+            chk.ob("C21.R3", f"{cname}: no read of connection-lifetime state (total_changes / in_transaction / SQL changes(), total_changes(), "
+                   f"last_insert_rowid()) through a value that may be the shared connection", True, m=own.m, node=own.cls, instance=f"{cname}:no-lifetime-reads")
+    # 35 on today's tree: 21 on the connection (workflow store 14 = cursor/execute/commit in the 9 provider blocks + the migration commit;
+    # state store 7 = execute/commit/cursor/close in _copy_state_from_run, _load_state, _save_state, _release) and 14 on cursors made from it
+    # (execute + fetchall/fetchone/rowcount in query, delete, query_events, get_ticks, stream_ticks, get_legacy_ctx, _load_state)
+    chk.floor("C21.R3", "attribute uses of the possibly-shared connection and of cursors made from it examined in both classes", examined, 24)
+    lo = _fixture_class(FIXTURE_R3, "CountingStore", {"_shared_conn"})
+    freads, _n = lifetime_reads(lo)
+    fbad = sorted({d["fn"].name for d in freads if not d["ok"]})
+    fgood = sorted({d["fn"].name for d in freads if d["ok"]})
+    chk.floor("C21.R3", "planted connection-lifetime reads reported in fixtures/c21/lifetime_reads.py", len([d for d in freads if not d["ok"]]), 7)
+    chk.floor("C21.R3", "planted harmless reads accepted in fixtures/c21/lifetime_reads.py", len([d for d in freads if d["ok"]]), 6)
+    if fbad != sorted(["purge", "purge_via_cursor", "purge_sql", "count_of_last_write", "upsert", "is_busy", "_written"]) \
+            or fgood != sorted(["purge_delta", "purge_guarded", "purge_changes", "insert", "tidy"]):
+        raise AnchorError(f"C21.R3: fixture verdicts changed: reported {fbad}, accepted {fgood}")
 
     # ---------------------------------------------------------------- R2
     n_conn = 0
@@ -438,6 +736,8 @@ def run(chk) -> None:
 _PW = "packages/llama-agents-server/src/llama_agents/server/_store/sqlite/sqlite_workflow_store.py"
 _PS = "packages/llama-agents-server/src/llama_agents/server/_store/sqlite/sqlite_state_store.py"
 
+_DEL = "            cursor = conn.cursor()\n            cursor.execute(sql, tuple(params))\n            deleted = cursor.rowcount\n            conn.commit()\n"
+
 TWINS = [
     # ---- R1 breaking
     Twin("state store grows a close() that closes the provider's result", _PS, "    @property\n    def run_id(self) -> str:\n        return self._run_id\n",
@@ -475,6 +775,32 @@ TWINS = [
          "    def close(self) -> None:\n        if self._persistent_conn is not None:\n            self._persistent_conn.close()\n\n    def create_state_store(\n        self,\n        run_id: str,", None),
     Twin("benign: owner closes guarded by the mode flag", _PW, "            rows = cursor.fetchall()\n\n        return [_row_to_persistent_handler(row) for row in rows]",
          "            rows = cursor.fetchall()\n            if not self._single_connection:\n                conn.close()\n\n        return [_row_to_persistent_handler(row) for row in rows]", None),
+    # ---- R3 breaking
+    Twin("seed form: delete reports conn.total_changes after the commit", _PW, _DEL,
+         "            conn.execute(sql, tuple(params))\n            conn.commit()\n            deleted = conn.total_changes\n", "C21.R3"),
+    Twin("delete reports the counter through the cursor's connection", _PW, _DEL,
+         "            cursor = conn.cursor()\n            cursor.execute(sql, tuple(params))\n            conn.commit()\n            deleted = cursor.connection.total_changes\n", "C21.R3"),
+    Twin("delete reports SQL total_changes()", _PW, _DEL,
+         "            conn.execute(sql, tuple(params))\n            deleted = conn.execute(\"SELECT total_changes()\").fetchone()[0]\n            conn.commit()\n", "C21.R3"),
+    Twin("delete asks changes() before its own DELETE has run", _PW, _DEL,
+         "            deleted = conn.execute(\"SELECT changes()\").fetchone()[0]\n            conn.execute(sql, tuple(params))\n            conn.commit()\n", "C21.R3"),
+    Twin("state store: copy_state decides 'source missing' from the connection's write counter", _PS, "            conn.commit()\n        finally:\n            self._release(conn)\n\n    def _serialize_state",
+         "            conn.commit()\n            if conn.total_changes == 0:\n                raise KeyError(source_run_id)\n        finally:\n            self._release(conn)\n\n    def _serialize_state", "C21.R3"),
+    Twin("state store: save_state (connection passed one call deep) skips the write inside an open transaction", _PS,
+         "            now = _utc_now().isoformat()\n            state_json = self._serialize_state(state)\n",
+         "            if conn.in_transaction and not should_close:\n                return\n            now = _utc_now().isoformat()\n            state_json = self._serialize_state(state)\n", "C21.R3"),
+    # ---- R3 benign
+    Twin("benign: delete reads rowcount of execute()'s cursor after the commit", _PW, _DEL,
+         "            done = conn.execute(sql, tuple(params))\n            conn.commit()\n            deleted = done.rowcount\n", None),
+    Twin("benign: delete reports the difference of two total_changes reads", _PW, _DEL,
+         "            written_before = conn.total_changes\n            conn.execute(sql, tuple(params))\n            conn.commit()\n            deleted = conn.total_changes - written_before\n", None),
+    Twin("benign: delete asks changes() right after its own DELETE", _PW, _DEL,
+         "            conn.execute(sql, tuple(params))\n            deleted = conn.execute(\"SELECT changes()\").fetchone()[0]\n            conn.commit()\n", None),
+    Twin("benign: total_changes only on the per-call branch", _PW, _DEL,
+         "            cursor = conn.cursor()\n            cursor.execute(sql, tuple(params))\n            conn.commit()\n            if self._single_connection:\n"
+         "                deleted = cursor.rowcount\n            else:\n                deleted = conn.total_changes\n", None),
+    Twin("benign: update ends a transaction left open before it starts", _PW, "    async def update(self, handler: PersistentHandler) -> None:\n        with self._connect() as conn:\n",
+         "    async def update(self, handler: PersistentHandler) -> None:\n        with self._connect() as conn:\n            if conn.in_transaction:\n                conn.rollback()\n", None),
     # ---- R2 breaking / benign
     Twin("get_ticks opens its own connection", _PW, "    async def get_ticks(self, run_id: str) -> list[StoredTick]:\n        with self._connect() as conn:",
          "    async def get_ticks(self, run_id: str) -> list[StoredTick]:\n        with contextlib.closing(sqlite3.connect(self.db_path)) as conn:", "C21.R2"),
